@@ -82,33 +82,43 @@ def normalise_reads(ev: List[Any]) -> List[Any]:
     return out
 
 
-def bit_constants(fn: ast.AST):
+def bit_constants(repo: Repo, fi):
+    """Integer constants used as bit masks (operands of & and |) and shift distances in a function and in the helpers a later
+    refactoring extracted from it; a module-level name bound to an integer counts as that integer."""
     masks, shifts = set(), set()
+    for f in repo.with_fresh_callees(fi):
+        def const(n, f=f):
+            if isinstance(n, ast.Constant):
+                return n.value if isinstance(n.value, int) and not isinstance(n.value, bool) else None
+            if isinstance(n, (ast.Name, ast.Attribute)):
+                try:
+                    v = repo.fold(n, f.module)
+                except Exception:
+                    return None
+                return v if isinstance(v, int) and not isinstance(v, bool) else None
+            return None
 
-    def const(n):
-        return n.value if isinstance(n, ast.Constant) and isinstance(n.value, int) and not isinstance(n.value, bool) else None
-
-    for n in ast.walk(fn):
-        op = None
-        operands: List[ast.AST] = []
-        if isinstance(n, ast.BinOp):
-            op, operands = n.op, [n.left, n.right]
-        elif isinstance(n, ast.AugAssign):
-            op, operands = n.op, [n.value]
-        if op is None:
-            continue
-        if isinstance(op, (ast.BitAnd, ast.BitOr)):
-            for o in operands:
-                if isinstance(o, ast.IfExp):
-                    for b in (o.body, o.orelse):
-                        if const(b) is not None:
-                            masks.add(const(b))
-                if const(o) is not None:
-                    masks.add(const(o))
-        elif isinstance(op, (ast.LShift, ast.RShift)):
-            c = const(operands[-1])
-            if c is not None:
-                shifts.add(c)
+        for n in ast.walk(f.node):
+            op = None
+            operands: List[ast.AST] = []
+            if isinstance(n, ast.BinOp):
+                op, operands = n.op, [n.left, n.right]
+            elif isinstance(n, ast.AugAssign):
+                op, operands = n.op, [n.value]
+            if op is None:
+                continue
+            if isinstance(op, (ast.BitAnd, ast.BitOr)):
+                for o in operands:
+                    if isinstance(o, ast.IfExp):
+                        for b in (o.body, o.orelse):
+                            if const(b) is not None:
+                                masks.add(const(b))
+                    if const(o) is not None:
+                        masks.add(const(o))
+            elif isinstance(op, (ast.LShift, ast.RShift)):
+                c = const(operands[-1])
+                if c is not None:
+                    shifts.add(c)
     return masks, shifts
 
 
@@ -348,7 +358,7 @@ def run(repo: Repo, chk: Check) -> None:
     }
     for name, (need_masks, need_shifts, sign_alt) in layouts.items():
         f = repo.func(f'{FORGE}.{name}')
-        masks, shifts = bit_constants(f.node)
+        masks, shifts = bit_constants(repo, f)
         if not masks and not shifts:
             raise AnalysisError(f'{name}: no mask/shift constants found — bit layout idiom not modelled')
         extra = masks - need_masks - sign_alt
